@@ -988,3 +988,72 @@ M("c08_exact_growth_doubles", ["C08"], ["C08.R4"], [
         };
 
         unsafe { self.generic_grow_to(required_cap.max(self.capacity() * 2)) }""")])
+
+# ---------------------------------------------------------------- C09
+M("c09_insert_str_without_boundary_check", ["C09"], ["C09.R1"], [
+    ("src/bump_string.rs", """    pub(crate) fn generic_insert_str<E: ErrorBehavior>(&mut self, idx: usize, string: &str) -> Result<(), E> {
+        self.assert_char_boundary(idx);""", """    pub(crate) fn generic_insert_str<E: ErrorBehavior>(&mut self, idx: usize, string: &str) -> Result<(), E> {
+        assert!(idx <= self.len());""")])
+M("c09_replace_range_checks_start_only", ["C09"], ["C09.R1"], [
+    ("src/mut_bump_string.rs", """        self.assert_char_boundary(start);
+        self.assert_char_boundary(end);
+
+        let range_len = end - start;""", """        self.assert_char_boundary(start);
+
+        let range_len = end - start;""")])
+M("c09_from_utf8_skips_validation_for_ascii_len", ["C09"], ["C09.R2"], [
+    ("src/bump_string.rs", """        match str::from_utf8(vec.as_slice()) {
+            // SAFETY: `BumpVec<u8>` and `BumpString` have the same representation;
+            // only the invariant that the bytes are utf8 is different.
+            Ok(_) => Ok(unsafe { transmute_value(vec) }),""", """        if vec.len() < 2 { return Ok(unsafe { transmute_value(vec) }); }
+        match str::from_utf8(vec.as_slice()) {
+            // SAFETY: `BumpVec<u8>` and `BumpString` have the same representation;
+            // only the invariant that the bytes are utf8 is different.
+            Ok(_) => Ok(unsafe { transmute_value(vec) }),""")])
+M("c09_truncate_without_boundary", ["C09"], ["C09.R1"], [
+    ("src/bump_box.rs", """        if new_len <= self.len() {
+            self.assert_char_boundary(new_len);
+            unsafe { self.as_mut_bytes().truncate(new_len) }""", """        if new_len <= self.len() {
+            unsafe { self.as_mut_bytes().truncate(new_len) }""")])
+M("c09_into_cstr_truncates_before_nul", ["C09"], ["C09.R4"], [
+    ("src/bump_string.rs", "Some(nul) => unsafe { self.fixed.cook_mut().as_mut_vec().truncate(nul + 1) },",
+     "Some(nul) => unsafe { self.fixed.cook_mut().as_mut_vec().truncate(nul) },")])
+M("c09_cstr_from_str_writes_nul_one_early", ["C09"], ["C09.R4"], [
+    ("src/traits/bump_allocator_typed_scope.rs", """                core::ptr::copy_nonoverlapping(src.as_ptr(), dst.as_ptr(), src.len());
+                dst.as_ptr().add(src.len()).write(0);
+
+                let bytes = core::slice::from_raw_parts(dst.as_ptr(), src.len() + 1);
+                CStr::from_bytes_with_nul_unchecked(bytes)""", """                core::ptr::copy_nonoverlapping(src.as_ptr(), dst.as_ptr(), src.len());
+                dst.as_ptr().add(src.len().saturating_sub(1)).write(0);
+
+                let bytes = core::slice::from_raw_parts(dst.as_ptr(), src.len() + 1);
+                CStr::from_bytes_with_nul_unchecked(bytes)""")])
+M("c09_new_unvalidated_constructor", ["C09"], ["C09.R2"], [
+    ("src/bump_box.rs", """    pub const EMPTY_STR: Self = unsafe { BumpBox::from_utf8_unchecked(BumpBox::<[u8]>::EMPTY) };""",
+     """    pub const EMPTY_STR: Self = unsafe { BumpBox::from_utf8_unchecked(BumpBox::<[u8]>::EMPTY) };
+
+    /// Lossless "fast" conversion for short inputs.
+    pub fn from_short_bytes(bytes: BumpBox<'a, [u8]>) -> Self {
+        unsafe { BumpBox::from_utf8_unchecked(bytes) }
+    }""")])
+M("c09_retain_without_guard", ["C09", "C06"], ["C09.R3", "C06.R2"], [
+    ("src/bump_box.rs", """        let len = self.len();
+        let mut guard = SetLenOnDrop {
+            s: self,
+            idx: 0,
+            del_bytes: 0,
+        };""", """        let len = self.len();
+        let mut guard = core::mem::ManuallyDrop::new(SetLenOnDrop {
+            s: self,
+            idx: 0,
+            del_bytes: 0,
+        });"""),
+    ("src/bump_box.rs", """            // Point idx to the next char
+            guard.idx += ch_len;
+        }
+
+        drop(guard);""", """            // Point idx to the next char
+            guard.idx += ch_len;
+        }
+
+        drop(core::mem::ManuallyDrop::into_inner(guard));""")])
